@@ -717,3 +717,181 @@ def finished_setters_list2(mode: EnumOf(TransmissionMode), crc: EnumOf(CrcFlag),
         pdu.fault_location = None
     fresh = FinishedPdu(conf, FinishedParams(cc, dc, fs, final, None))
     fin_setter_clauses(pdu, fresh, conf, snap)
+
+
+# ------------------------------------------------------------------------------------------------------------------
+# Metadata
+# ------------------------------------------------------------------------------------------------------------------
+# file names of at most 80 octets in the list-free harnesses (z3 does not build models with long sequences in reasonable time)
+NAME = StrLen(80)
+
+
+def name_octets(name):
+    """an absent file name is the empty LV"""
+    if name is None:
+        return b""
+    return name.encode("utf-8")
+
+
+def name_accessor_ok(got, name):
+    """the accessor reports None for the empty name (absent and empty are the same wire value)"""
+    if name is None:
+        return got is None
+    if len(name.encode("utf-8")) == 0:
+        return got is None
+    return got == name
+
+
+@obligation(["C06", "C11", "C04"], "MetadataPdu.pack/scalar",
+            verifies=[MD + "MetadataPdu.__init__", MD + "MetadataPdu.pack", MD + "MetadataPdu._calculate_directive_field_len"])
+def metadata_pack_scalar(direction: EnumOf(Direction), mode: EnumOf(TransmissionMode), crc: EnumOf(CrcFlag), large: EnumOf(LargeFileFlag),
+                         segctrl: EnumOf(SegmentationControl), we: W, ws: W, src: Int, seq: Int, dst: Int,
+                         closure: Bool, cksum: EnumOf(ChecksumType), size: Int, sname: NAME, dname: NAME):
+    """no options: every header configuration, file size over all integers (does not fit => pack fails)"""
+    requires(ids_in_range(we, ws, src, seq, dst))
+    conf = mk_conf(we, ws, src, seq, dst, mode, crc, large, direction, segctrl)
+    params = MetadataParams(closure, cksum, size, sname, dname)
+    snap = snapshot(conf)
+    psnap = snapshot(params)
+    pdu = MetadataPdu(conf, params)
+    ensures("caller-config-untouched", same_state(conf, snap))
+    o = outcome(pdu.pack)
+    fits = fss_fits(large, size)
+    ensures("not-fitting-refused", implies(not fits, o.raised(ValueError, struct.error)))
+    ensures("fitting-accepted", implies(fits, o.ok))
+    if o.ok:
+        raw = o.value
+        ensures("packet_len", pdu.packet_len == len(raw))
+        ensures("data-field-len", pdu.pdu_header.pdu_data_field_len == len(raw) - (4 + 2 * we + ws))
+        cl = 0
+        if closure:
+            cl = 1
+        layout_clauses(raw, crc, directive_body(TOWARDS_RECEIVER, mode, crc, large, segctrl, we, ws, src, seq, dst,
+                                                metadata_params(cl, cksum, large, size, name_octets(sname), name_octets(dname), b"")))
+        ensures("accessors", both(pdu.closure_requested == closure, pdu.checksum_type == cksum, pdu.file_size == size,
+                                  pdu.options is None, pdu.crc_flag == crc, pdu.file_flag == large,
+                                  pdu.direction == Direction.TOWARDS_RECEIVER, pdu.directive_type == 7))
+        ensures("pack-twice", pdu.pack() == raw)
+    ensures("caller-objects-untouched", both(same_state(conf, snap), same_state(params, psnap)))
+
+
+@obligation(["C06", "C11"], "MetadataPdu.pack/names", verifies=[MD + "MetadataPdu.__init__", MD + "MetadataPdu.pack",
+                                                                 MD + "MetadataPdu.source_file_name", MD + "MetadataPdu.dest_file_name"])
+def metadata_pack_names(mode: EnumOf(TransmissionMode), crc: EnumOf(CrcFlag), large: EnumOf(LargeFileFlag), src: Int, seq: Int, dst: Int,
+                        closure: Bool, cksum: EnumOf(ChecksumType), size: Int, sname: OptionalOf(NAME), dname: OptionalOf(NAME)):
+    """absent (None) and empty file names are the empty LV; the name accessors report None for both (one width pair)"""
+    we = 4
+    ws = 1
+    requires(ids_in_range(we, ws, src, seq, dst))
+    requires(fss_fits(large, size))
+    conf = mk_conf(we, ws, src, seq, dst, mode, crc, large, Direction.TOWARDS_RECEIVER, SegmentationControl.NO_RECORD_BOUNDARIES_PRESERVATION)
+    params = MetadataParams(closure, cksum, size, sname, dname)
+    psnap = snapshot(params)
+    pdu = MetadataPdu(conf, params)
+    raw = pdu.pack()
+    ensures("packet_len", pdu.packet_len == len(raw))
+    cl = 0
+    if closure:
+        cl = 1
+    layout_clauses(raw, crc, directive_body(TOWARDS_RECEIVER, mode, crc, large, 0, we, ws, src, seq, dst,
+                                            metadata_params(cl, cksum, large, size, name_octets(sname), name_octets(dname), b"")))
+    ensures("name-accessors", both(name_accessor_ok(pdu.source_file_name, sname), name_accessor_ok(pdu.dest_file_name, dname)))
+    ensures("caller-params-untouched", same_state(params, psnap))
+
+
+# options: generic TLVs (any of the six TLV types, value of at most 80 octets)
+OPT_ITEM = TupleOf(EnumOf(TlvType), BytesLen(0, 80))
+OPTIONS = ListOf(OPT_ITEM, 2)
+OPT_BOUND = "list length <= 2, TLV values <= 80 octets, file names <= 80 octets"
+
+
+def mk_options(items):
+    return [CfdpTlv(t, v) for (t, v) in items]
+
+
+def options_octets(items):
+    r = b""
+    for (t, v) in items:
+        r = r + tlv(t, v)
+    return r
+
+
+def closure_bit(closure):
+    if closure:
+        return 1
+    return 0
+
+
+@obligation(["C06", "C11", "C04"], "MetadataPdu.pack/list", bounded=OPT_BOUND,
+            verifies=[MD + "MetadataPdu.__init__", MD + "MetadataPdu.pack", MD + "MetadataPdu._calculate_directive_field_len"])
+def metadata_pack_list(mode: EnumOf(TransmissionMode), crc: EnumOf(CrcFlag), large: EnumOf(LargeFileFlag), we: W2, ws: W2B, src: Int, seq: Int,
+                       dst: Int, closure: Bool, cksum: EnumOf(ChecksumType), size: Int, sname: NAME, dname: NAME, items: OPTIONS):
+    requires(ids_in_range(we, ws, src, seq, dst))
+    requires(fss_fits(large, size))
+    conf = mk_conf(we, ws, src, seq, dst, mode, crc, large, Direction.TOWARDS_RECEIVER, SegmentationControl.NO_RECORD_BOUNDARIES_PRESERVATION)
+    options = mk_options(items)
+    pdu = MetadataPdu(conf, MetadataParams(closure, cksum, size, sname, dname), options)
+    raw = pdu.pack()
+    ensures("packet_len", pdu.packet_len == len(raw))
+    ensures("data-field-len", pdu.pdu_header.pdu_data_field_len == len(raw) - (4 + 2 * we + ws))
+    layout_clauses(raw, crc, directive_body(TOWARDS_RECEIVER, mode, crc, large, 0, we, ws, src, seq, dst,
+                                            metadata_params(closure_bit(closure), cksum, large, size, name_octets(sname), name_octets(dname),
+                                                            options_octets(items))))
+    ensures("accessors", is_same(pdu.options, options))
+    ensures("pack-twice", pdu.pack() == raw)
+
+
+def md_rt_clauses(pdu, raw, suffix, conf, closure, cksum, size, sname, dname, items):
+    o = outcome(MetadataPdu.unpack, raw + suffix)
+    ensures("decoded-or-refused", o.ok or o.raised(ValueError, InvalidCrc))
+    ensures("exact-pdu-accepted", implies(len(suffix) == 0, o.ok))
+    if o.ok:
+        g = o.value
+        ensures("rt-params", both(g.closure_requested == closure, g.checksum_type == cksum, g.file_size == size))
+        ensures("rt-names", both(name_accessor_ok(g.source_file_name, sname), name_accessor_ok(g.dest_file_name, dname)))
+        if len(items) == 0:
+            ensures("rt-options", either(g.options is None, g.options == []))
+        else:
+            ensures("rt-option-count", both(g.options is not None, len(g.options) == len(items)))
+            if g.options is not None and len(g.options) == len(items):
+                for (x, (t, v)) in zip(g.options, items):
+                    ensures("rt-option", both(x.tlv_type == t, x.value == v, x.packet_len == 2 + len(v), x.pack() == tlv(t, v)))
+        ensures("rt-header", both(g.pdu_header.pdu_conf == conf, g.direction == Direction.TOWARDS_RECEIVER, g.file_flag == conf.file_flag,
+                                  g.crc_flag == conf.crc_flag, g.transmission_mode == conf.trans_mode, g.directive_type == 7))
+        ensures("rt-lengths", both(g.packet_len == len(raw), g.pdu_header.pdu_data_field_len == pdu.pdu_header.pdu_data_field_len))
+        ensures("rt-equal", both(g == pdu, pdu == g))
+        ensures("rt-repack", g.pack() == raw)
+
+
+@obligation(["C06", "C09", "C04"], "MetadataPdu/roundtrip-scalar", verifies=[MD + "MetadataPdu.unpack", MD + "MetadataPdu.__eq__"],
+            max_paths=4000, branch_timeout_ms=300)
+def metadata_roundtrip_scalar(mode: EnumOf(TransmissionMode), crc: EnumOf(CrcFlag), large: EnumOf(LargeFileFlag),
+                              segctrl: EnumOf(SegmentationControl), we: W, ws: W, src: Int, seq: Int, dst: Int,
+                              closure: Bool, cksum: EnumOf(ChecksumType), size: Int, sname: NAME, dname: NAME, suffix: Bytes):
+    """no options (options=None), non-empty file names: every header configuration"""
+    requires(ids_in_range(we, ws, src, seq, dst))
+    requires(fss_fits(large, size))
+    requires(both(len(sname.encode("utf-8")) > 0, len(dname.encode("utf-8")) > 0))
+    conf = mk_conf(we, ws, src, seq, dst, mode, crc, large, Direction.TOWARDS_RECEIVER, segctrl)
+    pdu = MetadataPdu(conf, MetadataParams(closure, cksum, size, sname, dname))
+    raw = pdu.pack()
+    md_rt_clauses(pdu, raw, suffix, conf, closure, cksum, size, sname, dname, [])
+
+
+@obligation(["C06", "C09", "C04"], "MetadataPdu/roundtrip-names", verifies=[MD + "MetadataPdu.unpack", MD + "MetadataPdu.__eq__"],
+            max_paths=4000, branch_timeout_ms=300)
+def metadata_roundtrip_names(mode: EnumOf(TransmissionMode), crc: EnumOf(CrcFlag), large: EnumOf(LargeFileFlag), src: Int, seq: Int, dst: Int,
+                             closure: Bool, cksum: EnumOf(ChecksumType), size: Int, sname: OptionalOf(NAME), dname: OptionalOf(NAME),
+                             no_options: Choice(None, ()), suffix: Bytes):
+    """absent, empty and non-empty file names; options None or the empty list (one width pair)"""
+    we = 1
+    ws = 4
+    requires(ids_in_range(we, ws, src, seq, dst))
+    requires(fss_fits(large, size))
+    conf = mk_conf(we, ws, src, seq, dst, mode, crc, large, Direction.TOWARDS_RECEIVER, SegmentationControl.NO_RECORD_BOUNDARIES_PRESERVATION)
+    options = None
+    if no_options is not None:
+        options = []
+    pdu = MetadataPdu(conf, MetadataParams(closure, cksum, size, sname, dname), options)
+    raw = pdu.pack()
+    md_rt_clauses(pdu, raw, suffix, conf, closure, cksum, size, sname, dname, [])
